@@ -76,10 +76,10 @@ func (o c12kOp) String() string {
 }
 
 type c12kScript struct {
-	Base    string      `json:"base"`
-	Traffic *veTraffic  `json:"traffic"`
-	Ops     []c12kOp    `json:"ops"`
-	Convs   []string    `json:"convs"`
+	Base    string     `json:"base"`
+	Traffic *veTraffic `json:"traffic"`
+	Ops     []c12kOp   `json:"ops"`
+	Convs   []string   `json:"convs"`
 }
 
 type c12kTag struct {
